@@ -66,6 +66,12 @@ CLAIMED = {
    text="Proof: tools/translate.py reads, on every run, the field lists of BytecodeVM/SavedVmState/TrampolineFrame/SavedTrampolineFrame and where each field of the record literals in save_state and from_saved_state comes from. Suspend/Model.v gives these tables a meaning (records as total maps, an entry copies one field); c07_running_frame_survives and c07_caller_frames_survive prove, against the regenerated tables, that restore(save vm) agrees with vm on all 12 state-holding fields of the running frame (ip, chunk, registers, call_stack, try_stack, this_value, exception_value, saved_env_stack, arguments, new_target, current_constructor, pending_completion) and on all 16 of every caller frame, for every VM and any number of frames. c07_schedule_independent: on Host.Ledger (Interpreter::step's resume logic, tied by the C08 trace correspondence) any run that completes under any honest host schedule (extra steps, early/late/repeated/batched/reordered answers) has seen exactly the synchronous run's values; non-vacuity witnesses by vm_compute. c07_generator_yield_refuted (known finding Y1) and c07_prefix_refuted (the five fields lost before fix 66c9150). Tie/search on every run: 58 await-position templates x 6 (thorough 30) schedules, 150 (3000) generated programs x 3 schedules, 120 (480) ledger-event programs x 3 schedules against sync_result evaluated in Coq, 13 generator templates against node.",
    note="Trusted: Coq kernel + vm_compute; tools/translate.py (brace-matching reader; classifies a field initialiser by the first self./frame./state./saved. path it mentions); the meaning given to a table entry (clone/map/re-guard preserve the value); Rust harness auto-host; node 20 for the generator templates. Not in the model: Interpreter.env and the wait graph (which context resumes first) - covered by the behavioural streams only; promise combinators beyond all/allSettled templates.",
    design_ref="DESIGN.md §5 C07"),
+ "C11": dict(
+   engine="Runs",
+   technique="Coq proof (run-bookkeeping invariant over all histories of runs, each an arbitrary event sequence ending by completing, failing or being abandoned) + correspondence of the model's bookkeeping at nesting paths with the hook summary at abandon points + differential observers after histories of dying runs vs a fresh interpreter",
+   text="Proof: Runs/Model.v models Interpreter's run bookkeeping (scope chain, env_guards, call_stack, active VM, parked continuations, active_base) with begin_run / abort_active_execution / finalize_active_execution as in the current source (fixes fc19135, 2c5aaff). c11_every_run_starts_clean: for EVERY history of runs - each run an arbitrary sequence of enter/leave/suspend events over blocks, loop bodies, calls and finally bodies, i.e. a run may die at any point inside any nesting - every run starts from the scope chain, roots, trace stack and continuation set of a fresh interpreter (completing runs are required to be well bracketed). c11_failed_run_leaves_nothing: a failed run is clean as soon as the error is returned. c11_bookkeeping_at_point: guards/call-stack/scope counts at a program point are the sums over its nesting path. Witness history and the pre-fix behaviour (c11_prefix_refuted) by vm_compute. Tie on every run: 150 (1200) nesting paths x {script, module} abandoned at the innermost point, hook summary compared with at_point evaluated in Coq; 120 (1500) histories of 1-3 dying runs (throw, ReferenceError, TypeError, thrown object, abandon; nests incl. re-entering natives, generators, async; parse/compile errors, parked orders/promises, deep recursion) each followed by 7 observer programs compared (status, value, console, error class/message/stack, hook summary) with a fresh interpreter.",
+   note="Trusted: Coq kernel + vm_compute; the verif_summary hook; Rust harness (th seq); Python generators. The model carries bookkeeping only; values and the heap are covered by the observers. Global effects a program makes on purpose (script-level declarations, globalThis) are outside the property.",
+   design_ref="DESIGN.md §5 C11"),
 }
 
 NOT_YET = "not claimed yet in this revision: its model/theorem pair is not built; see DESIGN.md §5 and §8 (build order)"
